@@ -76,7 +76,10 @@ class StoreObj(Call):
         if self.kind == "Path":
             return (w.module().Path(p) if w.mode != "native" else __import__("pathlib").Path(p)), None
         if self.kind in ("stream", "bytesio"):
-            if self.offset is None:
+            if isinstance(self.offset, (list, tuple)):
+                # the solver picks one of the listed offsets (OFFV is the index)
+                self.off = self.offset[w.ps.choose(OFFV, 0, len(self.offset))]
+            elif self.offset is None:
                 n = len(w.contents[self.k])
                 w.ps.constrain(z3.And(OFFV >= 0, OFFV <= n))
                 self.off = w.ps.choose(OFFV, 0, n + 1)
@@ -649,9 +652,11 @@ def explore_steps(w_args, menu_fn, splits=None, clauses=None, procs=None, deadli
     return par_explore(worker, splits, procs)
 
 
-def alias_native(what):
-    """native confirmation: two distinct identifiers observed at one address really share state on a real store"""
+def alias_native(what, files=None):
+    """native confirmation: two distinct identifiers observed at one address really share state on a real store.
+    files: {relative path: bytes} present in the working directory (identifiers may be spelled like paths)"""
     import logging
+    import os
     import shutil
     from . import loader
     from .universe import scratch_root
@@ -659,7 +664,13 @@ def alias_native(what):
     MN = loader.load("filehashstore.py")
     root = scratch_root()
     out = []
+    cwd0 = os.getcwd()
     try:
+        os.chdir(root)
+        for rel, data in (files or {}).items():
+            os.makedirs(os.path.dirname(os.path.join(root, rel)), exist_ok=True)
+            with open(os.path.join(root, rel), "wb") as fh:
+                fh.write(data)
         for group in what:
             a, b = tuple(group[0]), tuple(group[1])
             s = MN.FileHashStore(dict(store_path=root + "/s%d" % len(out), store_depth=3, store_width=2,
@@ -685,6 +696,7 @@ def alias_native(what):
         return bool(bad), ("native run (unpatched code, real file system): storing under the second identifier "
                            "affects the first: %r" % (bad,))
     finally:
+        os.chdir(cwd0)
         shutil.rmtree(root, ignore_errors=True)
 
 
